@@ -3,7 +3,8 @@
 //! driven through real sockets with a seeded mix of session outcomes —
 //! complete, keep-alive then close, client reset after the answer, reset in the
 //! middle of the request head, backend refusal (503), idle close, idle until
-//! the front timeout reclaims the session, and a storm above `max_connections`
+//! the front timeout reclaims the session, TCP relays (complete, reset, backend
+//! refusal), and a storm above `max_connections`
 //! — then the gauges reported by `QueryMetrics` (`client.connections`,
 //! `slab.entries`, `buffer.in_use`, the backend connection gauges) are compared
 //! with the baseline read before any traffic.
@@ -26,7 +27,7 @@ use sozu_command_lib::{
     config::{ConfigBuilder, FileConfig, ListenerBuilder},
     proto::command::{
         filtered_metrics::Inner, request::RequestType, response_content::ContentType, ActivateListener, AddBackend,
-        Cluster, ListenerType, LoadBalancingParams, PathRule, QueryMetricsOptions, Request, RequestHttpFrontend,
+        Cluster, ListenerType, LoadBalancingParams, PathRule, QueryMetricsOptions, Request, RequestHttpFrontend, RequestTcpFrontend,
         ResponseStatus, RulePosition, ServerConfig, SocketAddress, WorkerRequest, WorkerResponse,
     },
     scm_socket::{Listeners, ScmSocket},
@@ -237,6 +238,19 @@ fn main() {
     lb.with_connect_timeout(Some(1));
     let mut lb2 = ListenerBuilder::new_http(fa2.clone());
     lb2.with_front_timeout(Some(2)).with_request_timeout(Some(2)).with_back_timeout(Some(2)).with_connect_timeout(Some(1));
+    // two TCP listeners: one in front of the live backend, one in front of the refusing one
+    let tcp_good: SocketAddr = format!("127.0.0.1:{}", free_port()).parse().unwrap();
+    let tcp_dead: SocketAddr = format!("127.0.0.1:{}", free_port()).parse().unwrap();
+    let tcp_listener = |a: SocketAddr, cluster: &str| -> Vec<RequestType> {
+        let sa: SocketAddress = a.into();
+        let mut b = ListenerBuilder::new_tcp(sa.clone());
+        b.with_connect_timeout(Some(1));
+        vec![
+            RequestType::AddTcpListener(b.to_tcp(None).unwrap()),
+            RequestType::ActivateListener(ActivateListener { address: sa.clone(), proxy: ListenerType::Tcp.into(), from_scm: false }),
+            RequestType::AddTcpFrontend(RequestTcpFrontend { cluster_id: cluster.into(), address: sa, ..Default::default() }),
+        ]
+    };
     let front_of = |cluster: &str, host: &str, fa: &SocketAddress| {
         RequestType::AddHttpFrontend(RequestHttpFrontend {
             cluster_id: Some(cluster.into()),
@@ -270,6 +284,9 @@ fn main() {
         backend_of("good", back),
         backend_of("dead", dead),
     ];
+    let mut setup = setup;
+    setup.extend(tcp_listener(tcp_good, "good"));
+    setup.extend(tcp_listener(tcp_dead, "dead"));
     for (i, r) in setup.into_iter().enumerate() {
         match send(&mut main_ch, &format!("S-{i}"), r) {
             Some(resp) if resp.status == ResponseStatus::Ok as i32 => {}
@@ -289,9 +306,9 @@ fn main() {
     let get = |g: &Vec<(String, u64)>, k: &str| g.iter().find(|(n, _)| n == k).map(|(_, v)| *v);
 
     let connect = || TcpStream::connect_timeout(&front, Duration::from_secs(3)).ok();
-    let mut counts = [0usize; 8];
+    let mut counts = [0usize; 11];
     for _ in 0..rounds {
-        let kind = (rng.next() % 8) as usize;
+        let kind = (rng.next() % 11) as usize;
         counts[kind] += 1;
         match kind {
             0 => {
@@ -364,6 +381,29 @@ fn main() {
                     if !closed {
                         println!("viol not-reclaimed an idle client connection was still open 40 s after connecting (front_timeout = 2 s)");
                     }
+                }
+            }
+            8 => {
+                // TCP relay: one exchange through the proxy, orderly close
+                if let Ok(mut c) = TcpStream::connect_timeout(&tcp_good, Duration::from_secs(3)) {
+                    let _ = c.write_all(b"PING / HTTP/1.1\r\n\r\n");
+                    let _ = read_response(&mut c, Duration::from_secs(5));
+                }
+            }
+            9 => {
+                // TCP relay: reset while the relay is established
+                if let Ok(mut c) = TcpStream::connect_timeout(&tcp_good, Duration::from_secs(3)) {
+                    let _ = c.write_all(b"PING / HTTP/1.1\r\n\r\n");
+                    let _ = read_response(&mut c, Duration::from_secs(5));
+                    let _ = c.write_all(b"half a requ");
+                    reset(c);
+                }
+            }
+            10 => {
+                // TCP relay whose backend refuses: the proxy gives up and closes
+                if let Ok(mut c) = TcpStream::connect_timeout(&tcp_dead, Duration::from_secs(3)) {
+                    let _ = c.write_all(b"hello");
+                    let _ = read_response(&mut c, Duration::from_secs(8));
                 }
             }
             _ => {
